@@ -1066,6 +1066,52 @@ def rule_r4(chk, prog):
                                      and c.value in FP_REF)])
                         if len(names) == 1 and len(nums) == 2:
                             tab[names[0]] = tuple(nums)
+    # any other place that writes a short FP name out as (_ FloatingPoint
+    # eb sb): the widths come from a table keyed by the short names, whose
+    # rows must be the SMT-LIB pairs (the significand width counts the
+    # hidden bit)
+    for om in prog.pkg_modules():
+        if 'tests' in om.rel():
+            continue
+        tabs = {}
+        for st in ast.walk(om.tree):
+            if isinstance(st, ast.Assign) and len(
+                    st.targets) == 1 and isinstance(
+                        st.targets[0], ast.Name) and isinstance(
+                            st.value, ast.Dict) and st.value.keys and all(
+                                isinstance(k_, ast.Constant)
+                                and k_.value in FP_REF
+                                for k_ in st.value.keys):
+                tabs[st.targets[0].id] = st.value
+        if not tabs:
+            continue
+        for c in ast.walk(om.tree):
+            if not (isinstance(c, ast.Call) and call_name(c) in (
+                    'Node', 'nodes.Node') and any(
+                        isinstance(a, ast.Constant)
+                        and a.value == 'FloatingPoint' for a in c.args)):
+                continue
+            used = [x.id for a in c.args for x in ast.walk(a)
+                    if isinstance(x, ast.Name) and x.id in tabs]
+            for tn in dict.fromkeys(used):
+                rows = {}
+                for k_, v_ in zip(tabs[tn].keys, tabs[tn].values):
+                    nums = ints_of([v_])
+                    rows[k_.value] = tuple(nums)
+                okr = all(rows.get(n_) == FP_REF[n_] for n_ in rows)
+                fn_ = getattr(c, '_parent', None)
+                while fn_ is not None and not isinstance(
+                        fn_, ast.FunctionDef):
+                    fn_ = getattr(fn_, '_parent', None)
+                chk.check('C16.R4', f'{om.name}.'
+                          f'{fn_._qualname if fn_ is not None else ""}',
+                          f'(_ FloatingPoint ..) from table {tn}', okr,
+                          f'a short FP sort name is written out as (_ '
+                          f'FloatingPoint eb sb) with the widths of table '
+                          f'{tn} = {rows}; SMT-LIB: {FP_REF} (sb includes '
+                          'the hidden bit): the two notations of one sort '
+                          'are equated with a different sort',
+                          loc=om.loc(c), nontrivial=True)
     chk.check('C16.R4', 'mutators_fp.FPShortSort.mutations',
               f'abbreviation table {tab}', tab == FP_REF,
               f'FPShortSort abbreviates {tab}; SMT-LIB: {FP_REF}',
@@ -1094,6 +1140,98 @@ def _binder_values(f, store):
                         for x in t.elts):
                     vals.add(v.id)
     return vals or {v.id}
+
+
+# -------------------------------------------------------------------- R11
+NUM_POS = ('0', '7', '12', '007')
+DEC_POS = ('1.5', '0.25', '10.0')
+NUM_NEG = ('inf', 'nan', 'infinity', 'Infinity', 'NaN', '+1', '-1', '.5',
+           '1e5', '1E5', '1_0', '\u0661\u0662', 'x', '1x', 'x1', '', ' 1',
+           '0x10', '1.2.3', '1,5', 'true', '#b01')
+
+
+def rule_r11(chk, prog):
+    chk.rule('C16.R11', 'the predicates that make a leaf an Int / Real '
+             'constant accept only SMT-LIB numerals and decimals: the leaf '
+             'is judged by a regular expression whose matches (on a probe '
+             'set) are digit strings with at most one inner ".", never by '
+             'float() / int() / str.isdigit(), which also accept "inf", '
+             '"nan", signs, exponents, underscores and non-ASCII digits - '
+             'all of them legal SMT-LIB symbols of other sorts')
+    import re as _re
+    m = prog.mod('smtlib')
+    n = 0
+    for pname, want_dec in (('is_int_const', False), ('is_real_const', True),
+                            ('is_arith_const', True)):
+        f = m.func(pname)
+        where = f'smtlib.{pname}'
+        # the function and the module-level helpers it calls (depth 2)
+        scopes = [f]
+        for c in calls_in(f):
+            if isinstance(c.func, ast.Name) and c.func.id in m.funcs and \
+                    c.func.id not in ('is_int_const', 'is_real_const',
+                                      'is_arith_const'):
+                scopes.append(m.funcs[c.func.id])
+        pats = []
+        lax = []
+        for sc in scopes:
+            for c in ast.walk(sc):
+                if not isinstance(c, ast.Call):
+                    continue
+                nm = call_name(c) or ''
+                if nm in ('re.match', 're.fullmatch', 're.search') and \
+                        c.args and isinstance(c.args[0], ast.Constant):
+                    pats.append((c, c.args[0].value, nm.split('.')[1]))
+                elif isinstance(c.func, ast.Attribute) and c.func.attr in (
+                        'match', 'fullmatch', 'search') and isinstance(
+                            c.func.value, ast.Name) and len(m.globals.get(
+                                c.func.value.id, [])) == 1:
+                    d = m.globals[c.func.value.id][0]
+                    if isinstance(d, ast.Call) and call_name(
+                            d) == 're.compile' and d.args and isinstance(
+                                d.args[0], ast.Constant):
+                        pats.append((c, d.args[0].value, c.func.attr))
+                elif nm in ('float', 'int', 'decimal.Decimal',
+                            'fractions.Fraction', 'Fraction', 'Decimal') or (
+                                isinstance(c.func, ast.Attribute)
+                                and c.func.attr in ('isdigit', 'isnumeric',
+                                                    'isdecimal', 'isalnum')):
+                    lax.append(c)
+        for c in lax:
+            n += 1
+            chk.check('C16.R11', where, c, False,
+                      f'"{unparse(c)[:50]}" decides whether a leaf is a '
+                      'numeric constant: float()/int()/isdigit() accept '
+                      '"inf", "nan", "+1", "1e5", "1_0" or non-ASCII digits, '
+                      'which are symbols of other sorts in SMT-LIB - such a '
+                      'leaf is inferred to be Int/Real', loc=m.loc(c),
+                      nontrivial=True)
+        if not pats and not lax:
+            raise AnalysisError(f'C16.R11: {where}: no regular expression '
+                                'and no conversion found that judges the '
+                                'leaf text')
+        for (c, pat, how) in pats:
+            n += 1
+            try:
+                fn_ = getattr(_re, how)
+                acc = [t for t in NUM_NEG if fn_(pat, t) is not None]
+                rej = [t for t in NUM_POS + (DEC_POS if want_dec else ())
+                       if fn_(pat, t) is None]
+                extra = [] if want_dec else [
+                    t for t in DEC_POS if fn_(pat, t) is not None]
+            except _re.error as e_:
+                raise AnalysisError(f'C16.R11: {where}: pattern {pat!r}: '
+                                    f'{e_}')
+            chk.check('C16.R11', where, f're.{how}({pat!r})',
+                      not acc and not rej and not extra,
+                      f'the pattern {pat!r} (re.{how}) accepts {acc[:4]} / '
+                      f'rejects {rej[:4]}'
+                      + (f' / accepts decimals {extra[:2]} as Int'
+                         if extra else '')
+                      + ': leaves that are not numerals/decimals are '
+                      'inferred to be Int/Real (or numerals are not)',
+                      loc=m.loc(c), nontrivial=True)
+    chk.floor('C16.R11', 'judgements of numeric leaf text', n, 3)
 
 
 # --------------------------------------------------------------------- R5
@@ -1786,6 +1924,7 @@ def run(tier):
     chk.guard(rule_r8, chk, prog)
     chk.guard(rule_r9, chk, prog)
     chk.extra['exhaustive'] = True
+    chk.guard(rule_r11, chk, prog)
     from .. import memo
 
     def _memo_rule(chk, prog):
